@@ -1,5 +1,6 @@
 (* C20 — The dupsort hack maps duplicate-key data reversibly or refuses it. Property theorems only. *)
-From LS Require Import Base.Bytes Base.Res Merge.Model DupSort.Model DupSort.Proofs.
+From LS Require Import Base.Bytes Base.Res Merge.Model Merge.Version Strategy.Model Strategy.Proofs
+  DupSort.Model DupSort.Proofs Shadow.Model Shadow.DupCycle Instance.Model Instance.Proofs.
 From Coq Require Import Sorted.
 Open Scope N_scope.
 
@@ -44,6 +45,54 @@ Theorem C20_keys_ok : forall l r,
 Proof. exact hack_encode_keys_ok. Qed.
 Print Assumptions C20_keys_ok.
 
+(* ---- the mirror cycle over a whole DUPSORT DBI ---- *)
+(* shadow -> application: the rebuilt application DBI holds EXACTLY the pairs (decoded key, application
+   value) of the shadow entries with a non-empty application value — whatever was merged into the shadow
+   DBI from remote snapshots in between ("apart from merged remote changes") *)
+Theorem C20_project_pairs : forall main shadow main',
+  sorted bcmp (fun _ => True) (keys shadow) ->
+  shadow_to_main_dup main shadow = Ok main' ->
+  forall p, In p main' <->
+    (snd p <> [] /\ exists K r, In K (keys shadow) /\ pv shadow K = snd p /\
+                               dec_one (mkKV K [] 0 0) = Ok r /\ k_key r = fst p).
+Proof. exact dup_project_spec. Qed.
+Print Assumptions C20_project_pairs.
+
+(* a full cycle with nothing merged in between leaves the set of pairs unchanged: for EVERY content of the
+   duplicate-keys DBI that the mapping accepts and every shadow DBI as LS writes it (timestamps below now —
+   the clock assumption of C11 —, deleted => empty value — C14). Pairs with an EMPTY value are dropped
+   (the empty-means-deleted convention, known finding F6 of C11). *)
+Theorem C20_mirror_cycle : forall now txn cutoff main shadow shadow' main',
+  now < two64 -> txn < two64 ->
+  sorted bcmp (fun _ => True) (keys shadow) ->
+  (forall K o, ver_of (dget bcmp shadow K) = Some o -> ts o < now /\ (del o = true -> val o = [])) ->
+  main_to_shadow_dup now txn cutoff main shadow = Ok shadow' ->
+  shadow_to_main_dup main shadow' = Ok main' ->
+  forall p, In p main' <-> (In p main /\ snd p <> []).
+Proof. exact dup_mirror_cycle. Qed.
+Print Assumptions C20_mirror_cycle.
+
+(* ---- the transform is stated by the sender and checked by the receiver ---- *)
+(* every dumped DBI states "dupsort_hack_v1" iff the application DBI is DUPSORT *)
+Theorem C20_transform_stated : forall c ds names r,
+  dump_loop c ds names = Ok r ->
+  Forall (fun sd => exists m, find_dbi ds (sd_name sd) = Some m /\ sd_flags sd = d_flags m /\
+            sd_transform sd = (if has_flag (d_flags m) DupSortFlag then transform_dupsort else [])) r.
+Proof.
+  intros c ds names r H. eapply Forall_impl; [|exact (dump_loop_content c ds names r H)].
+  intros sd (m & s & Hm & _ & Hf & Ht & _). exists m. auto.
+Qed.
+Print Assumptions C20_transform_stated.
+(* a receiver accepts a DBI only if it knows the transform, is not in native mode when one is stated, and
+   (format >= 3) the DUPSORT flag and the transform agree; everything else fails the whole load (C18) *)
+Theorem C20_transform_checked : forall fmt native d,
+  validate_transform fmt native d = Ok tt <->
+  ((sd_transform d = [] \/ sd_transform d = transform_dupsort) /\
+   (native = true -> sd_transform d = []) /\
+   (3 <= fmt -> (has_flag (sd_flags d) DupSortFlag = true <-> sd_transform d = transform_dupsort))).
+Proof. exact transform_rules. Qed.
+Print Assumptions C20_transform_checked.
+
 (* non-vacuity + the refusal cases, concretely *)
 Example C20_example_ok :
   hack_encode [mkKV [107] [118] 0 0; mkKV [107] [119] 0 0]
@@ -53,3 +102,12 @@ Proof. vm_compute. reflexivity. Qed.
 Example C20_example_order_refused :
   hack_encode [mkKV [107] [1] 0 0; mkKV [107;0] [0] 0 0] = Err ERefused.
 Proof. vm_compute. reflexivity. Qed.
+
+(* non-vacuity of the cycle theorem: duplicate keys, a stale shadow entry, a changed pair *)
+Example C20_cycle_example :
+  let main := [([107], [118]); ([107], [119]); ([108], [120])] in
+  let shadow := [([107;0;0;0;0;117;1], be64 5 ++ be64 7 ++ [0;0;0;0;0;0;0;0] ++ [117])] in
+  exists shadow' main',
+    main_to_shadow_dup 1000 9 0 main shadow = Ok shadow' /\
+    shadow_to_main_dup main shadow' = Ok main' /\ main' = main.
+Proof. eexists. eexists. split; [vm_compute; reflexivity|]. split; vm_compute; reflexivity. Qed.
